@@ -13,7 +13,7 @@
 //       'u' = one microsecond
 //     records with an odd id are obtained through Processor::MakeRecordable() (and, for spans, announced with OnStart)
 //       instead of being built by the caller: both are pass-throughs that must not change anything
-//     exporter script: chars 's' (Export succeeds) / 'f' (Export reports failure), cycled; 'F' = ForceFlush fails; 'S' = Shutdown fails
+//     exporter script: chars 's' (Export succeeds) / 'f' 'u' 'v' (Export reports kFailure / kFailureFull / kFailureInvalidArgument), cycled; 'F' = ForceFlush fails; 'S' = Shutdown fails
 //     actions: t<i> run thread i | t<i>! run with a spurious weak-CAS failure | o<i> timer of thread i's timed wait expires
 //              | w<i> spurious wake-up of thread i's wait
 //   thread numbering: 0 = worker, 1..nprod = producers, then flushers, then shutdown callers.
@@ -129,8 +129,12 @@ public:
     char c = st_->script.empty() ? 's' : st_->script[st_->n_export % st_->script.size()];
     st_->n_export++;
     st_->inflight--;
-    detsched::note(std::string("export-end ") + (c == 'f' ? "fail" : "ok"));
-    return c == 'f' ? sdkc::ExportResult::kFailure : sdkc::ExportResult::kSuccess;
+    detsched::note(std::string("export-end ") + (c == 's' ? "ok" : "fail"));
+    // every failure code of ExportResult: a batch handed to Export is gone whatever the exporter answers
+    return c == 'f' ? sdkc::ExportResult::kFailure
+         : c == 'u' ? sdkc::ExportResult::kFailureFull
+         : c == 'v' ? sdkc::ExportResult::kFailureInvalidArgument
+                    : sdkc::ExportResult::kSuccess;
   }
   bool ForceFlush(std::chrono::microseconds) noexcept override
   {
@@ -194,7 +198,7 @@ static std::string handle(const std::vector<std::string> &t)
   ExpState est;
   for (char c : xs)
   {
-    if (c == 's' || c == 'f') est.script.push_back(c);
+    if (c == 's' || c == 'f' || c == 'u' || c == 'v') est.script.push_back(c);
     else if (c == 'F') est.ff_fails = true;
     else if (c == 'S') est.sd_fails = true;
     else return "bad-op";
